@@ -757,7 +757,13 @@ func (it *Interp) compute(fr *frame, v ssa.Value) AV {
 	case *ssa.MakeClosure:
 		f, _ := x.Fn.(*ssa.Function)
 		return NonNil("closure:" + FnKey(f))
-	case *ssa.MakeSlice, *ssa.MakeMap, *ssa.MakeChan:
+	case *ssa.MakeSlice:
+		if k, ok := ConstInt(x.Len); ok && k == 0 {
+			return AV{Kind: KSlice, Key: "[]"}
+		}
+		it.allocN++
+		return NonNil(fmt.Sprintf("make#%d", it.allocN))
+	case *ssa.MakeMap, *ssa.MakeChan:
 		it.allocN++
 		return NonNil(fmt.Sprintf("make#%d", it.allocN))
 	case *ssa.Slice:
